@@ -246,6 +246,7 @@ func checkC03(c *Ctx, r *Report) {
 	}
 	exactDurationRule(c, r)
 	stringAccessorRule(c, r)
+	durationThroughReferenceRule(c, r)
 	r.Rule("R03a", "every lossy SSA numeric conversion in the root package is dominated by facts on the same operand that imply the destination range (strict against 2^63/2^64 for floats, NaN excluded by a true-edge fact)", 4)
 	r.Rule("R03b", "every multiplication producing a time.Duration from a non-constant operand is dominated by facts bounding the operand to MaxInt64/unit", 2)
 	r.Rule("R03c", "every reflect.Value.Convert whose receiver may hold a number is guarded by the false edge of OverflowInt/OverflowUint/OverflowFloat on a zero value of the same type with the same operand, or converts to a provably non-numeric type", 4)
@@ -803,5 +804,52 @@ func stringAccessorRule(c *Ctx, r *Report) {
 			}
 			r.Check(fromParser, "R03e", name, "returns the parsed value", c.Pos(ret.Pos()), "the success value is strconv's result", "a success return does not return the parser's result")
 		}
+	}
+}
+
+// durationThroughReferenceRule (R03f): reifyDuration tells numbers (seconds) from text (a duration with a unit) by
+// the node type of the value. A setting that is exactly one reference takes the referenced value with its type
+// (C02), so the node that is classified has to be what the reference evaluates to: `d: ${t}` with `t: 5` is five
+// seconds, not the text "5" without a unit. The subject of the node-type switch can be the result of getValue of the
+// value asserted to *cfgDynamic.
+func durationThroughReferenceRule(c *Ctx, r *Report) {
+	r.Rule("R03f", "reifyDuration classifies the value a reference evaluates to, not the reference node (a number behind a reference means seconds)", 1)
+	fn := c.Func("", "reifyDuration")
+	var val *ssa.Parameter
+	for _, p := range fn.Params {
+		if isNamed(p.Type(), modPath, "value") {
+			val = p
+		}
+	}
+	n := 0
+	Instrs(fn, false, func(in ssa.Instruction) {
+		ta, ok := in.(*ssa.TypeAssert)
+		if !ok || typeStr(ta.AssertedType) != "*ucfg.cfgInt" {
+			return
+		}
+		n++
+		through := false
+		for _, s := range append(Sources(ta.X), ta.X) {
+			ex, isEx := s.(*ssa.Extract)
+			if !isEx || ex.Index != 0 {
+				continue
+			}
+			call, isCall := ex.Tuple.(*ssa.Call)
+			if !isCall || calledName(call) != "getValue" || len(call.Call.Args) == 0 {
+				continue
+			}
+			for _, s2 := range append(Sources(call.Call.Args[0]), call.Call.Args[0]) {
+				if s2 == ssa.Value(val) {
+					through = true
+				}
+				if t2, isTA := s2.(*ssa.TypeAssert); isTA && t2.X == ssa.Value(val) {
+					through = true
+				}
+			}
+		}
+		r.Check(through, "R03f", c.FnName(fn), "node type of the evaluated value", c.Pos(ta.Pos()), "the switch subject can be getValue() of the reference", "the node-type switch of reifyDuration looks at the reference node itself: a number behind a reference falls into the text branch and fails with \"missing unit\" (d: ${t} with t: 5), although the same number written in place means seconds")
+	})
+	if n == 0 {
+		r.add("R03f", c.FnName(fn), "node type of the evaluated value", c.Pos(fn.Pos()), Undecided, true, "no assertion to *cfgInt found in reifyDuration")
 	}
 }
